@@ -901,3 +901,49 @@ mut('c20-revert-f13', 'C20', ['C20.5'], H,
 mut('c20-lock-no-loop-check', 'C20', ['C20.5'], S,
     "        if self._semaphore is None or self._loop != current_loop:", "        if self._semaphore is None:",
     'global lock semaphore bound to the first loop')
+
+# ================================================================================================ more neutral variants (refactors)
+def neutral2(id: str, edits: list[tuple[str, str, str]], what: str = '') -> None:
+    NEUTRALS.append({'id': id, 'edits': edits, 'what': what})
+
+
+neutral2('n-rename-from-queue', [
+    (S, "        from_queue = False\n", "        dequeued = False\n"),
+    (S, "            from_queue = True\n", "            dequeued = True\n"),
+    (S, "            if from_queue:\n                self.event_queue.task_done()", "            if dequeued:\n                self.event_queue.task_done()"),
+], 'local flag renamed in step')
+neutral2('n-rename-inline-event', [
+    (M, "                                    event = bus.event_queue.get_nowait()\n", "                                    queued = bus.event_queue.get_nowait()\n"),
+    (M, "                                        await bus.process_event(event)\n", "                                        await bus.process_event(queued)\n"),
+], 'local renamed in the inline loop (F0 key changes only in its variable-independent part?)')
+neutral('n-reorder-ctx-sets', S,
+        "        token = _current_event_context.set(event)\n        # Mark that we're inside a handler\n        handler_token = inside_handler_context.set(True)\n",
+        "        handler_token = inside_handler_context.set(True)\n        token = _current_event_context.set(event)\n",
+        'independent context sets reordered')
+neutral('n-nested-if-parent-id', S,
+        "            if current_event is not None and current_event.event_id != event.event_id:\n                event.event_parent_id = current_event.event_id",
+        "            if current_event is not None:\n                if current_event.event_id != event.event_id:\n                    event.event_parent_id = current_event.event_id",
+        'conjunction split into nested ifs')
+neutral('n-early-continue-inline', M,
+        "                                if bus.event_queue.qsize() > 0:\n",
+        "                                if bus.event_queue.qsize() >= 1:\n",
+        'equivalent comparison')
+neutral('n-wal-local-rename', S,
+        "            event_json = event.model_dump_json()  # pyright: ignore[reportUnknownMemberType]\n            self.wal_path.parent.mkdir(parents=True, exist_ok=True)\n            async with await anyio.open_file(self.wal_path, 'a', encoding='utf-8') as f:  # pyright: ignore[reportUnknownMemberType]\n                await f.write(event_json + '\\n')",
+        "            line = event.model_dump_json()  # pyright: ignore[reportUnknownMemberType]\n            self.wal_path.parent.mkdir(parents=True, exist_ok=True)\n            async with await anyio.open_file(self.wal_path, 'a', encoding='utf-8') as fh:  # pyright: ignore[reportUnknownMemberType]\n                await fh.write(line + '\\n')",
+        'locals renamed in the WAL handler')
+neutral('n-retry-wait-commuted', H,
+        "                current_wait = wait * (backoff_factor**attempt)", "                current_wait = (backoff_factor**attempt) * wait",
+        'commuted product')
+neutral('n-expect-key-ifelse', S,
+        "            event_key: str = event_type.__name__ if isinstance(event_type, type) else str(event_type)  # pyright: ignore[reportUnknownMemberType, reportPartialTypeErrors]\n",
+        "            if isinstance(event_type, type):\n                event_key = event_type.__name__\n            else:\n                event_key = str(event_type)\n",
+        'conditional expression rewritten as if/else')
+neutral('n-children-listcomp', M,
+        "        children: list[BaseEvent[Any]] = []\n        for event_result in self.event_results.values():\n            children.extend(event_result.event_children)\n        return children",
+        "        return [child for event_result in self.event_results.values() for child in event_result.event_children]",
+        'loop rewritten as a comprehension')
+neutral('n-mark-complete-merged-test', M,
+        "            if not all_handlers_done:\n                # logger.debug(",
+        "            if all_handlers_done is False or not all_handlers_done:\n                # logger.debug(",
+        'redundant disjunct')
